@@ -252,8 +252,9 @@ def build(rng, topo, extra=(), pos_dtype="f32", isolated=0, permute=False, no_de
         fmt = {"i32": "i", "i16": "h", "u16": "H", "i8": "b"}[pos_dtype]
         sc = {"i32": 100000.0, "i16": 900.0, "u16": 900.0, "i8": 9.0}[pos_dtype] * pos_scale
         off = 5 if pos_dtype == "u16" else 0
+        lo, hi = {"i32": (-2 ** 31, 2 ** 31 - 1), "i16": (-32768, 32767), "u16": (0, 65535), "i8": (-128, 127)}[pos_dtype]
         add(G.POSITION, DT[pos_dtype], 3, False, n0, 0,
-            b"".join(struct.pack("<" + fmt * 3, *(int(round(c * sc)) + (off * 1000 if pos_dtype == "u16" else 0) for c in p)) for p in pts))
+            b"".join(struct.pack("<" + fmt * 3, *(max(lo, min(hi, int(round(c * sc)) + (off * 1000 if pos_dtype == "u16" else 0))) for c in p)) for p in pts))
     for k, (kind, layout) in enumerate(extra, start=1):
         lay, nval, src = layouts[k]
         nsrc = len(src) or 1
